@@ -60,6 +60,19 @@ func init() {
 			{Name: "full cache accepts the command without recording it", ExpectRule: "C29.R4", ExpectKey: "only after recording", Edits: []Edit{
 				{File: fl, Old: "\t\t\t\"command_id\", commandID)\n\t\treturn false\n\t}\n\n\tf.sleepCmdSeenCache[key] = &SeenSleepCommand{", New: "\t\t\t\"command_id\", commandID)\n\t\treturn true\n\t}\n\n\tf.sleepCmdSeenCache[key] = &SeenSleepCommand{"},
 			}},
+			{Name: "rewrite: sweep with maps.DeleteFunc, retention with the max builtin", Edits: []Edit{
+				{File: fl, Old: "\tfor key, entry := range f.sleepCmdSeenCache {\n\t\tif now.Sub(entry.SeenAt) > expiry {\n\t\t\tdelete(f.sleepCmdSeenCache, key)\n\t\t}\n\t}\n}\n", New: "\tmaps.DeleteFunc(f.sleepCmdSeenCache, func(_ SleepCommandKey, seen *SeenSleepCommand) bool {\n\t\tage := now.Sub(seen.SeenAt)\n\t\treturn expiry < age\n\t})\n}\n"},
+				{File: fl, Old: "\tretention := 2 * f.timestampWindow\n\tif f.cfg.SeenCacheTTL > retention {\n\t\tretention = f.cfg.SeenCacheTTL\n\t}\n\treturn retention\n", New: "\treturn max(2*f.timestampWindow, f.cfg.SeenCacheTTL)\n"},
+				{File: fl, Old: "import (\n", New: "import (\n\t\"maps\"\n"},
+			}},
+			{Name: "rewrite: lookup and capacity test in helpers called under the lock", Edits: []Edit{
+				{File: fl, Old: "\tif existing, ok := f.sleepCmdSeenCache[key]; ok {\n\t\tif existing.SeenFrom != fromPeer {\n\t\t\texisting.SeenAt = time.Now()\n\t\t}\n\t\treturn false\n\t}\n\n\t// Cache full: refuse the command rather than forget a live entry.\n\tif f.cfg.MaxSeenCacheSize > 0 && len(f.sleepCmdSeenCache) >= f.cfg.MaxSeenCacheSize {", New: "\tif f.c29Touch(key, fromPeer) {\n\t\treturn false\n\t}\n\n\t// Cache full: refuse the command rather than forget a live entry.\n\tif f.c29Full() {"},
+				{File: fl, Old: "// HandleSleepCommand processes an incoming SLEEP_COMMAND frame.\n", New: "func (f *Flooder) c29Touch(key SleepCommandKey, fromPeer identity.AgentID) bool {\n\texisting, ok := f.sleepCmdSeenCache[key]\n\tif !ok {\n\t\treturn false\n\t}\n\tif existing.SeenFrom != fromPeer {\n\t\texisting.SeenAt = time.Now()\n\t}\n\treturn true\n}\n\nfunc (f *Flooder) c29Full() bool {\n\tif f.cfg.MaxSeenCacheSize <= 0 {\n\t\treturn false\n\t}\n\treturn len(f.sleepCmdSeenCache) >= f.cfg.MaxSeenCacheSize\n}\n\n// HandleSleepCommand processes an incoming SLEEP_COMMAND frame.\n"},
+			}},
+			{Name: "maps.DeleteFunc sweep that ignores the entry's age", ExpectRule: "C29.R3", Edits: []Edit{
+				{File: fl, Old: "\tfor key, entry := range f.sleepCmdSeenCache {\n\t\tif now.Sub(entry.SeenAt) > expiry {\n\t\t\tdelete(f.sleepCmdSeenCache, key)\n\t\t}\n\t}\n}\n", New: "\tmaps.DeleteFunc(f.sleepCmdSeenCache, func(k SleepCommandKey, seen *SeenSleepCommand) bool {\n\t\treturn now.Sub(seen.SeenAt) > expiry || k.CommandID%2 == 0\n\t})\n}\n"},
+				{File: fl, Old: "import (\n", New: "import (\n\t\"maps\"\n"},
+			}},
 			{Name: "rewrite: explicit unlocks, lookup result in a variable", Edits: []Edit{
 				{File: fl, Old: "\tf.sleepCmdMu.Lock()\n\tdefer f.sleepCmdMu.Unlock()\n\n\tif existing, ok := f.sleepCmdSeenCache[key]; ok {\n\t\tif existing.SeenFrom != fromPeer {\n\t\t\texisting.SeenAt = time.Now()\n\t\t}\n\t\treturn false\n\t}\n", New: "\tf.sleepCmdMu.Lock()\n\texisting, found := f.sleepCmdSeenCache[key]\n\tswitch {\n\tcase found && existing.SeenFrom != fromPeer:\n\t\texisting.SeenAt = time.Now()\n\t\tfallthrough\n\tcase found:\n\t\tf.sleepCmdMu.Unlock()\n\t\treturn false\n\t}\n\tdefer f.sleepCmdMu.Unlock()\n"},
 			}},
@@ -113,104 +126,75 @@ func runC29(p *kit.Program, r *kit.Report) {
 		deleter[a.Fn] = true
 	}
 
-	// ---------------- R1
-	nHandlers, nMarks := 0, 0
-	var handlerFns []*ssa.Function
-	for _, h := range p.FuncsInPkg(c28Flood) {
-		var vcalls []*ssa.Call
-		for _, c := range kit.Calls(h) {
-			if cal := kit.CalleeOf(c); cal.Static != nil && cx.isVerify[cal.Static] {
-				if call, ok := c.(*ssa.Call); ok {
-					vcalls = append(vcalls, call)
-				}
-			}
-		}
-		if len(vcalls) == 0 {
-			continue
-		}
-		hasMark := false
-		for _, c := range kit.Calls(h) {
-			if cal := kit.CalleeOf(c); cal.Static != nil && inserter[cal.Static] {
-				hasMark = true
-			}
-		}
-		for _, a := range inserts {
-			if a.Fn == h {
-				hasMark = true
-			}
-		}
-		if !hasMark {
-			continue // a verification wrapper, not a handler: handlers verify AND record
-		}
-		nHandlers++
-		handlerFns = append(handlerFns, h)
-		var marks []ssa.Instruction
-		kit.Instrs(h, func(in ssa.Instruction) {
-			switch x := in.(type) {
-			case ssa.CallInstruction:
-				if cal := kit.CalleeOf(x); cal.Static != nil && inserter[cal.Static] {
-					marks = append(marks, in)
-				}
-			case *ssa.MapUpdate:
-				for _, a := range inserts {
-					if a.Instr == in {
-						marks = append(marks, in)
-					}
-				}
-			}
-		})
-		for i, m := range marks {
-			nMarks++
-			key := fmt.Sprintf("%s records command as seen #%d", kit.FuncName(h), i+1)
-			ok := cx.verifiedAt(m)
-			detail := "recorded only after the verifier returned nil"
-			if !ok && c29Compensated(cx, h, m, vcalls, deleter) {
-				ok, detail = true, "recorded before verification, but removed again on every verification-failure path"
-			}
-			r.Decide(ok, "C29.R1", key, p.Pos(m.Pos()), detail,
-				"the command id is recorded as seen before (or regardless of) verification: any peer can pre-empt a genuine command by sending its (origin, id) unsigned first, and unsigned floods fill the cache until genuine entries are evicted and become replayable")
-		}
+	// ---------------- R1 (semantic): evaluated on the exported handlers with a key configured
+	isInsert := map[ssa.Instruction]bool{}
+	for _, a := range inserts {
+		isInsert[a.Instr] = true
 	}
-	// R1 (second half): a handler reports "new, act on it" only when the record step said "new"
-	for _, h := range handlerFns {
-		res := h.Signature.Results()
-		if res.Len() == 0 {
+	nHandlers := 0
+	for _, h := range cx.handlers {
+		nHandlers++
+		hname := kit.FuncName(h)
+		args := c28BindArgs(h)
+		// (a) with crypto.Verify rejecting the command, no insert into the cache is reached
+		insertHit := false
+		obs := &c28Obs{cache: cache}
+		cfg := cx.pxFlood(c28Scenario{"", 0, false, true}, obs, nil)
+		cfg.Visit = func(fr *kit.PxFrame, in ssa.Instruction) bool {
+			if isInsert[in] {
+				insertHit = true
+			}
+			return true
+		}
+		run := kit.PathxExplore(h, args, cfg)
+		if run.Truncated {
+			r.Floor("checker: abstract evaluation of %s exceeded its step budget", hname)
 			continue
 		}
-		if b, ok := res.At(0).Type().Underlying().(*types.Basic); !ok || b.Kind() != types.Bool {
+		ok, detail := !insertHit, "no insert into the seen cache is reachable while crypto.Verify rejects the command"
+		if !ok && c29StructuralR1(cx, p, h, inserts, inserter, deleter) {
+			ok, detail = true, "recorded before verification, but removed again on every verification-failure path"
+		}
+		r.Decide(ok, "C29.R1", hname+" records only verified commands", p.Pos(h.Pos()), detail,
+			"the command id is recorded as seen before (or regardless of) verification: any peer can pre-empt a genuine command by sending its (origin, id) unsigned first, and unsigned floods fill the cache until genuine entries are evicted and become replayable")
+		// (b) with the command already recorded (lookup: present), the handler never answers true
+		acceptedDup := false
+		obs2 := &c28Obs{cache: cache, present: 1}
+		cfg2 := cx.pxFlood(c28Scenario{"", 0, true, false}, obs2, nil)
+		cfg2.Return = func(fr *kit.PxFrame, ret *ssa.Return, res []kit.PxVal) {
+			if ret.Block() == h.Recover || len(res) == 0 {
+				return
+			}
+			if v := res[0]; !(v.K == kit.PxBool && !v.B) {
+				acceptedDup = true
+			}
+		}
+		if run := kit.PathxExplore(h, args, cfg2); run.Truncated {
+			r.Floor("checker: abstract evaluation of %s exceeded its step budget", hname)
 			continue
 		}
-		bad := ssa.Instruction(nil)
-		for _, ret := range kit.Returns(h) {
-			if ret.Block() == h.Recover {
-				continue
+		// model fit: with the command absent and valid, the handler can answer true and records it
+		insertGood, acceptedGood := false, false
+		obs3 := &c28Obs{cache: cache, present: 2}
+		cfg3 := cx.pxFlood(c28Scenario{"", 0, true, false}, obs3, nil)
+		cfg3.Visit = func(fr *kit.PxFrame, in ssa.Instruction) bool {
+			if isInsert[in] {
+				insertGood = true
 			}
-			v := kit.ReturnResult(ret, 0)
-			if b, ok := kit.ConstBool(v); ok && !b {
-				continue
-			}
-			if c29MarkedNew(ret.Block(), inserter) {
-				continue
-			}
-			// `return f.mark(...)`: the result itself is the record step's verdict
-			if c, _, ok := kit.ResultOf(v); ok {
-				if cal := kit.CalleeOf(c); cal.Static != nil && inserter[cal.Static] {
-					continue
-				}
-			}
-			bad = ret
+			return true
 		}
-		pos := p.Pos(h.Pos())
-		if bad != nil {
-			pos = p.Pos(bad.Pos())
+		cfg3.Return = func(fr *kit.PxFrame, ret *ssa.Return, res []kit.PxVal) {
+			if len(res) > 0 && !(res[0].K == kit.PxBool && !res[0].B) {
+				acceptedGood = true
+			}
 		}
-		r.Decide(bad == nil, "C29.R1", kit.FuncName(h)+" accepts only commands recorded as new", pos,
-			"every possibly-true return is dominated by the record step reporting 'new'",
-			"the handler can return true although the seen-cache did not report the command as new (result ignored, a bypass for some senders, or a fallback): the same signed command is acted on again when it is replayed")
+		kit.PathxExplore(h, args, cfg3)
+		r.Require(insertGood && acceptedGood, "checker: abstract evaluation of %s does not reach the recording step / a true return for a new valid command (model does not fit the code)", hname)
+		r.Decide(!acceptedDup, "C29.R1", hname+" accepts only commands recorded as new", p.Pos(h.Pos()),
+			"with the command already in the seen cache no path returns true",
+			"the handler can return true although the seen-cache already holds the command (result ignored, a bypass for some senders, or a fallback): the same signed command is acted on again when it is replayed")
 	}
 	r.Count("verifying_handlers", nHandlers)
-	r.Count("seen_marks_in_handlers", nMarks)
-	r.Require(nHandlers >= 2 && nMarks >= 2, "floor: expected >= 2 verifying handlers that record commands as seen (found %d handlers, %d marks)", nHandlers, nMarks)
 
 	// ---------------- R2 / R3
 	c29Retention(cx, p, r, cache, deletes)
@@ -231,6 +215,10 @@ func runC29(p *kit.Program, r *kit.Report) {
 
 	// ---------------- R4
 	lookups := p.FieldAccessesOfKind(cache, kit.MapLookup)
+	lookupFn := map[*ssa.Function]bool{}
+	for _, lk := range lookups {
+		lookupFn[lk.Fn] = true
+	}
 	ord := map[*ssa.Function]int{}
 	for _, ins := range inserts {
 		ord[ins.Fn]++
@@ -265,6 +253,26 @@ func runC29(p *kit.Program, r *kit.Report) {
 					ok, detail = true, "lookup and insert share one write-locked region; the insert is on the 'absent' edge"
 				}
 			}
+			// the lookup may live in a helper called inside the same region ("is it there?")
+			if !ok {
+				for _, c := range kit.Calls(ins.Fn) {
+					call, isCall := c.(*ssa.Call)
+					cal := kit.CalleeOf(c)
+					if !isCall || cal.Static == nil || !lookupFn[cal.Static] || !li.SameRegion(c, ins.Instr, op.Mutex) {
+						continue
+					}
+					presentRes, known := c29PresentResult(cx, cal.Static, cache)
+					if !known {
+						continue
+					}
+					for _, g := range kit.GuardsOf(ins.Instr) {
+						cond, pol := c28StripBool(g.Cond, g.Polarity)
+						if cond == ssa.Value(call) && pol == !presentRes {
+							ok, detail = true, "the lookup helper and the insert share one write-locked region; the insert is on the helper's 'absent' answer"
+						}
+					}
+				}
+			}
 			if ok {
 				break
 			}
@@ -282,9 +290,30 @@ func runC29(p *kit.Program, r *kit.Report) {
 			continue
 		}
 		bad := ssa.Instruction(nil)
+		// semantic form first: with the command present in the cache, no path answers "new"
+		semantic := false
+		if fn.Parent() == nil {
+			obsP := &c28Obs{cache: cache, present: 1}
+			cfgP := cx.pxFlood(c28Scenario{"", 0, true, false}, obsP, nil)
+			nRet := 0
+			cfgP.Return = func(fr *kit.PxFrame, ret *ssa.Return, res []kit.PxVal) {
+				if ret.Block() == fn.Recover || len(res) == 0 {
+					return
+				}
+				nRet++
+				if !(res[0].K == kit.PxBool && !res[0].B) {
+					bad = ret
+				}
+			}
+			if run := kit.PathxExplore(fn, c28BindArgs(fn), cfgP); !run.Truncated && nRet > 0 {
+				semantic = true
+			} else {
+				bad = nil
+			}
+		}
 		for _, lk := range lookups {
 			look, isL := lk.Instr.(*ssa.Lookup)
-			if lk.Fn != fn || !isL || !look.CommaOk {
+			if semantic || lk.Fn != fn || !isL || !look.CommaOk {
 				continue
 			}
 			for _, ret := range kit.Returns(fn) {
@@ -340,11 +369,50 @@ func runC29(p *kit.Program, r *kit.Report) {
 			"every return on the lookup's 'present' edge yields false",
 			"a command that is already recorded can be reported as new again (e.g. 'entry looks stale' or 'seen from another peer'): the replayed command takes effect a second time")
 	}
-	// R5: the cache key is exactly the signed identity of the command
+	// R5: the cache key is exactly the signed identity of the command. Decided on the abstract
+	// value of the key where the evaluation from the package's entry points determines it
+	// completely; otherwise by provenance.
+	keyGood, keyBad, keyUndet := map[ssa.Instruction]bool{}, map[ssa.Instruction]string{}, map[ssa.Instruction]bool{}
+	entryFns, _ := c29Tops(p, inserter)
+	for _, top := range entryFns {
+		if top.Parent() != nil {
+			continue
+		}
+		obsK := &c28Obs{cache: cache, present: 2}
+		cfgK := cx.pxFlood(c28Scenario{"", 0, true, false}, obsK, nil)
+		cfgK.Visit = func(fr *kit.PxFrame, in ssa.Instruction) bool {
+			mu, ok := in.(*ssa.MapUpdate)
+			if !ok || !isInsert[in] {
+				return true
+			}
+			kv, _ := fr.Value(mu.Key)
+			verdict, why := c29KeyVerdict(kv)
+			switch verdict {
+			case 1:
+				keyGood[in] = true
+			case 2:
+				keyBad[in] = why
+			default:
+				keyUndet[in] = true
+			}
+			return true
+		}
+		kit.PathxExplore(top, c28BindArgs(top), cfgK)
+	}
 	ordK := map[*ssa.Function]int{}
 	for _, ins := range inserts {
 		ordK[ins.Fn]++
 		key := fmt.Sprintf("%s insert #%d key", kit.FuncName(ins.Fn), ordK[ins.Fn])
+		if keyBad[ins.Instr] != "" || (keyGood[ins.Instr] && !keyUndet[ins.Instr]) {
+			okK := keyBad[ins.Instr] == ""
+			d := "on every evaluated path the key is exactly (cmd.OriginAgent, cmd.CommandID)"
+			if !okK {
+				d = "the cache key does not consist of exactly the command's signed identity (" + keyBad[ins.Instr] + ")"
+			}
+			r.Decide(okK, "C29.R5", key, p.Pos(ins.Instr.Pos()), d,
+				d+": the same signed command presented with a different value of that component is treated as new and takes effect again — or distinct commands collide")
+			continue
+		}
 		have := map[string]bool{}
 		foreign := ""
 		for _, src := range kit.Slice(ins.Key, kit.SliceOpts{Prog: p, FollowParams: true, ParamDepth: 2}) {
@@ -389,6 +457,60 @@ func runC29(p *kit.Program, r *kit.Report) {
 	}
 }
 
+// c29KeyVerdict judges the abstract value of a cache key: 1 = exactly the command's signed
+// identity, 2 = contains something else that is known, 0 = not fully determined.
+func c29KeyVerdict(kv kit.PxVal) (int, string) {
+	if kv.K != kit.PxAgg {
+		return 0, ""
+	}
+	have := map[string]bool{}
+	undet := false
+	for _, e := range kv.Agg {
+		switch {
+		case e.K == kit.PxSym && (e.Sym == "$origin" || e.Sym == "$id"):
+			have[e.Sym] = true
+		case e.K == kit.PxInt && e.I == c28TS:
+			// the (signed) timestamp
+		case e.K == kit.PxUnknown:
+			undet = true
+		default:
+			return 2, "a component is neither the command's OriginAgent nor its CommandID"
+		}
+	}
+	if undet {
+		return 0, ""
+	}
+	if have["$origin"] && have["$id"] {
+		return 1, ""
+	}
+	return 2, "OriginAgent and CommandID of the command do not both reach it"
+}
+
+// c29PresentResult evaluates a bool-valued lookup helper with the command present in the
+// cache: the constant it then returns (e.g. touchSeen -> true, isNew -> false).
+func c29PresentResult(cx *c28Ctx, fn *ssa.Function, cache *types.Var) (res bool, known bool) {
+	if fn.Signature.Results().Len() == 0 {
+		return false, false
+	}
+	var vals []kit.PxVal
+	obs := &c28Obs{cache: cache, present: 1}
+	cfg := cx.pxFlood(c28Scenario{"", 0, true, false}, obs, nil)
+	cfg.Return = func(fr *kit.PxFrame, ret *ssa.Return, r []kit.PxVal) {
+		if ret.Block() != fn.Recover && len(r) > 0 {
+			vals = append(vals, r[0])
+		}
+	}
+	if run := kit.PathxExplore(fn, c28BindArgs(fn), cfg); run.Truncated || len(vals) == 0 {
+		return false, false
+	}
+	for _, v := range vals {
+		if v.K != kit.PxBool || v.B != vals[0].B {
+			return false, false
+		}
+	}
+	return vals[0].B, true
+}
+
 // c29MarkedNew: control reaches b only when a call of an inserting function returned true.
 func c29MarkedNew(b *ssa.BasicBlock, inserter map[*ssa.Function]bool) bool {
 	for _, g := range kit.Guards(b) {
@@ -418,6 +540,43 @@ func c29MarkedNew(b *ssa.BasicBlock, inserter map[*ssa.Function]bool) bool {
 		}
 	}
 	return false
+}
+
+// c29StructuralR1: the mark-then-unmark idiom, judged structurally in the handler itself: every
+// recording site in h is dominated by verifier == nil or compensated on every failure path.
+func c29StructuralR1(cx *c28Ctx, p *kit.Program, h *ssa.Function, inserts []kit.FieldAccess, inserter, deleter map[*ssa.Function]bool) bool {
+	var vcalls []*ssa.Call
+	for _, c := range kit.Calls(h) {
+		if cal := kit.CalleeOf(c); cal.Static != nil && cx.isVerify[cal.Static] {
+			if call, ok := c.(*ssa.Call); ok {
+				vcalls = append(vcalls, call)
+			}
+		}
+	}
+	var marks []ssa.Instruction
+	kit.Instrs(h, func(in ssa.Instruction) {
+		switch x := in.(type) {
+		case ssa.CallInstruction:
+			if cal := kit.CalleeOf(x); cal.Static != nil && inserter[cal.Static] {
+				marks = append(marks, in)
+			}
+		case *ssa.MapUpdate:
+			for _, a := range inserts {
+				if a.Instr == in {
+					marks = append(marks, in)
+				}
+			}
+		}
+	})
+	if len(vcalls) == 0 || len(marks) == 0 {
+		return false
+	}
+	for _, m := range marks {
+		if !cx.verifiedAt(m) && !c29Compensated(cx, h, m, vcalls, deleter) {
+			return false
+		}
+	}
+	return true
 }
 
 func c29LockOp(li *kit.LockInfo, in ssa.Instruction) (kit.LockOp, bool) {
@@ -521,6 +680,20 @@ func c29DeletesParamKey(fn *ssa.Function) bool {
 type c29Sample struct{ ttl, w int64 } // seconds
 
 func c29Retention(cx *c28Ctx, p *kit.Program, r *kit.Report, cache *types.Var, deletes []kit.FieldAccess) {
+	// maps.DeleteFunc(cache, pred) is the loop `for k, v := range cache { if pred(k, v) { delete } }`
+	delFuncSite := map[ssa.Instruction]bool{}
+	for _, fn := range p.RepoFuncs() {
+		for _, c := range kit.Calls(fn) {
+			cal := kit.CalleeOf(c)
+			if cal.Pkg == "maps" && cal.Name == "DeleteFunc" && len(c.Common().Args) == 2 {
+				if f, base := c29MapField(c.Common().Args[0]); f == cache {
+					delFuncSite[c] = true
+					deletes = append(deletes, kit.FieldAccess{Kind: kit.MapDelete, Field: cache, Fn: fn, Instr: c, Base: base})
+				}
+			}
+		}
+	}
+	r.Count("cache_deletefunc_sites", len(delFuncSite))
 	if len(deletes) == 0 {
 		r.OK("C29.R3", "no delete on "+cache.Name(), p.Pos(cx.handlers[0].Pos()), "entries are never removed")
 		return
@@ -596,6 +769,22 @@ func c29Retention(cx *c28Ctx, p *kit.Program, r *kit.Report, cache *types.Var, d
 					}
 					return kit.PxVal{}, false
 				},
+				Call: func(fr *kit.PxFrame, c ssa.CallInstruction, a []kit.PxVal) ([]kit.PxVal, bool) {
+					if !delFuncSite[c] || len(a) != 2 {
+						return nil, false
+					}
+					results, ok := fr.CallFunc(a[1], []kit.PxVal{kit.PxS("key"), kit.PxS("entry")})
+					if !ok {
+						hit[c] = true // predicate not resolvable: assume it may delete
+						return []kit.PxVal{}, true
+					}
+					for _, res := range results {
+						if len(res) == 0 || !(res[0].K == kit.PxBool && !res[0].B) {
+							hit[c] = true
+						}
+					}
+					return []kit.PxVal{}, true
+				},
 				Compute: func(fr *kit.PxFrame, v ssa.Value) ([]kit.PxVal, bool) {
 					switch x := v.(type) {
 					case *ssa.Next:
@@ -630,8 +819,8 @@ func c29Retention(cx *c28Ctx, p *kit.Program, r *kit.Report, cache *types.Var, d
 					if compensating[in] {
 						return false // removal of a record whose verification just failed (R1 idiom)
 					}
-					if isDelete[in] > 0 {
-						hit[in] = true
+					if isDelete[in] > 0 && !delFuncSite[in] {
+						hit[in] = true // (DeleteFunc sites are judged by their predicate, in Call)
 					}
 					return true
 				},
